@@ -309,3 +309,7 @@ pub fn stop_exploring() {
 pub fn skip_branch() {
     execution(|execution| execution.path.skip_branch())
 }
+
+#[cfg(loom_verif)]
+#[path = "/verif/hooks/rt_verif.rs"]
+pub(crate) mod verif;
